@@ -111,7 +111,7 @@ Definition h_exists (args : list bytes) : hres :=
 
 Definition h_expire (args : list bytes) : hres :=
   need 2 args (HBody (fun now d =>
-    let seconds := match parse_int (a1 args) with Some z => z | None => 0 end in
+    let seconds := parse_int_lax (a1 args) in
     let k := a0 args in
     let '(n, d') :=
       if opt o_NX args >? 1 then api_expire_nx k seconds now d
@@ -221,7 +221,7 @@ Definition h_set (args : list bytes) : hres :=
       let pexat := opt1 o_EXAT args in let ppxat := opt1 o_PXAT args in
       let num p := match arg p args with
                    | None => None
-                   | Some s => Some (match parse_int s with Some z => z | None => 0 end)
+                   | Some s => Some (parse_int_lax s)
                    end in
       if pex >? 1 then
         match num pex with
@@ -269,7 +269,7 @@ Definition h_append (args : list bytes) : hres :=
   need 2 args (HBody (fun now d => lift (api_append (a0 args) (a1 args) now d) (fun n d' => ret [WInt n] d'))).
 Definition h_setex (args : list bytes) : hres :=
   need 3 args (HBody (fun now d =>
-    let s := match parse_int (a1 args) with Some z => z | None => 0 end in
+    let s := parse_int_lax (a1 args) in
     lift (api_setex (a0 args) (a2 args) s now d) (fun _ d' => ret [WOK] d'))).
 Definition h_setnx (args : list bytes) : hres :=
   need 2 args (HBody (fun now d =>
@@ -496,7 +496,7 @@ Definition h_hstrlen (args : list bytes) : hres :=
 (* HSCAN: the input cursor is echoed *)
 Definition h_hscan (args : list bytes) : hres :=
   need 2 args
-    (let cursor := match parse_int (a1 args) with Some z => z | None => 0 end in
+    (let cursor := parse_int_lax (a1 args) in
      let pm := opt1 o_MATCH args in let pc := opt1 o_COUNT args in
      match (if pm >? 1 then arg pm args else Some [x2a]) with
      | None => HPanic
@@ -532,7 +532,7 @@ Definition h_llen (args : list bytes) : hres :=
     lift (api_llen (a0 args) now d) (fun n d' => ret [if n =? -1 then WNullBulk else WInt n] d'))).
 Definition h_lindex (args : list bytes) : hres :=
   need 2 args (HBody (fun now d =>
-    let i := match parse_int (a1 args) with Some z => z | None => 0 end in
+    let i := parse_int_lax (a1 args) in
     lift (api_lindex (a0 args) i now d) (fun v d' => ret [obulk v] d'))).
 Definition h_linsert (args : list bytes) : hres :=
   need 4 args (HBody (fun now d =>
